@@ -442,7 +442,7 @@ fn sweep<C: Container>(rep: &Report, n_members: usize, max_cap: usize, max_fills
         let total_cap: usize = spec.iter().map(|s| s.1).sum();
         let total_len: usize = spec.iter().map(|s| s.0).sum();
         let mut kinds = vec![VKind::Whole];
-        kinds.extend((0..=total_len + 1).map(VKind::Slice));
+        kinds.extend((0..=total_len).map(VKind::Slice));
         kinds.extend((0..=total_cap).filter(|&b| prefix_initialized(spec, b)).map(VKind::SliceMut));
         for kind in kinds {
             let st = vcore::explore(u32::MAX, u64::MAX, |ch| {
